@@ -210,6 +210,12 @@ def rule_sort_whole_lines(ctx):
     r.floor(6)
 
 
+def rule_move_across_break(ctx):
+    """with every mod_ option at its default no token changes its place either: the brace hoists of the newline passes stay on
+    their side of a directive line (shared with C02)"""
+    common_effects.move_across_break_rule(ctx)
+
+
 def rule_oc_sort_keeps_words(ctx):
     """mod_sort_oc_properties rebuilds the attribute list from its buckets and deletes what is left before the `)`: a word
     that lands in no bucket disappears (an identifier token, not one of the documented kinds)"""
@@ -250,4 +256,4 @@ def rule_oc_sort_keeps_words(ctx):
     r.floor(1)
 
 
-RULES = [rule_effects, rule_pairing, rule_remove_precondition, rule_scan_agreement, rule_swap_first_on_line, rule_sort_whole_lines, rule_oc_sort_keeps_words]
+RULES = [rule_effects, rule_pairing, rule_remove_precondition, rule_scan_agreement, rule_swap_first_on_line, rule_sort_whole_lines, rule_oc_sort_keeps_words, rule_move_across_break]
